@@ -67,7 +67,7 @@ def main():
         out['checks']['%s.%s' % (c, tier)] = {'exit': r.returncode, 'wall_s': round(time.time() - t0), 'lines': lines[:4]}
         if r.returncode == 1:
           break
-    sh('rm -f /verif/replays/*.json')
+    sh('rm -f /verif/replays/*.json; rm -rf /verif/run/*_alt_%s' % os.path.basename(wt))
     return out
   finally:
     sh('git -C /repo worktree remove --force %s' % wt)
